@@ -387,6 +387,98 @@ def coq_shadow_case(c):
                "; ".join(coq.coq_bool(b) for b in c["errno"]), c["nshow"]))
 
 
+# ================================================================ thread life cycle (Life.v)
+def strip_hooks(n):
+    n.h = "N"
+    for k in n.kids + n.tails:
+        strip_hooks(k)
+
+
+def gen_life_case(rng):
+    """-> (pre tree, cut, [post trees]): a new thread runs the first `cut` operations of the pre tree and exits; every
+    post tree is run by the harness' key destructor in one more destructor round, after libmcount's mtd_dtor"""
+    pre = gen_tree(rng, rng.choice(["pg", "mixed", "cyg", "plt", "tail", "recover", "cygpg", "plttail"]), maxd=3, budget=6)
+    if rng.random() < 0.15:
+        strip_hooks(pre)                     # a thread the tracer first meets inside a destructor
+    nops = len(full(pre)[0])
+    cut = nops if rng.random() < 0.65 else rng.randrange(1, nops)      # open frames at thread exit: pthread_exit()
+    posts = [gen_tree(rng, rng.choice(["pg", "mixed", "cyg", "plt", "tail", "recover"]), maxd=3, budget=5)
+             for _ in range(rng.choice([1, 1, 2, 3, 4]))]
+    return pre, cut, posts
+
+
+def run_life_case(h, pre, cut, posts):
+    ops, owner = full(pre)
+    groups = [harness_lines(ops[:cut], owner[:cut])]
+    pops = []
+    for t in posts:
+        o2, w2 = full(t)
+        pops.append(o2)
+        groups.append(harness_lines(o2, w2))
+    nshow = max(tree_depth(t) for t in [pre] + posts) + 2
+    rc, out, err = h.run(["LIFE " + " @ ".join(";".join(g) for g in groups)], nshow, {})
+    want = cut + sum(1 + len(o2) for o2 in pops)
+    base = {"pre": pre, "cut": cut, "posts": posts, "stderr": err[-300:], "raw": out[:200]}
+    if rc != 0 or len(out) != want:
+        return dict(base, crashed=True)
+    obs, flags = [], []
+    kinds = ["op"] * cut
+    for o2 in pops:
+        kinds += ["D"] + ["op"] * len(o2)
+    for i, (kind, line) in enumerate(zip(kinds, out)):
+        left, _, right = line.partition(" | ")
+        k = left.split()
+        snap = right.split()
+        u = "UNone"
+        if kind == "D":
+            if k[0] != "D":
+                return dict(base, crashed=True)
+            flags.append(tuple(x == "1" for x in k[1:4]))
+        elif k[0] == "E" and i < cut and int(k[1]) != 0:
+            owner[i].h = "N"
+        elif k[0] == "R":
+            u = "URet %d (%s)" % (int(k[1]), coq_word(k[2]))
+        obs.append((u, int(snap[0]), snap[1:nshow + 1]))
+    return dict(base, crashed=False, pre_ops=full(pre)[0][:cut], obs=obs, flags=flags, nshow=nshow)
+
+
+def coq_life_case(c):
+    return ("{| lf_pre := [%s];\n   lf_posts := [%s];\n   lf_obs := [%s];\n   lf_flags := [%s];\n   lf_nslots := %d |}" % (
+        "; ".join(coq_op(o) for o in c["pre_ops"]), "; ".join(coq_tree(t) for t in c["posts"]),
+        "; ".join("(%s, %d, [%s])" % (u, idx, "; ".join(coq_word(w) for w in ws)) for (u, idx, ws) in c["obs"]),
+        "; ".join("(%s, %s, %s)" % tuple(coq.coq_bool(b) for b in f) for f in c["flags"]), c["nshow"]))
+
+
+def life_json(c):
+    return {"kind": "life", "pre": json_tree(c["pre"]), "cut": c["cut"], "posts": [json_tree(t) for t in c["posts"]],
+            "observed": c.get("raw"), "flags(key,marker,dead)": c.get("flags"), "stderr": c.get("stderr")}
+
+
+def evaluate_life(ctx, lcases, name="life"):
+    """model (Life.run_lop) vs libmcount, and the property on libmcount's own outputs, inside Coq"""
+    good = [c for c in lcases if not c["crashed"]]
+    for c in lcases:
+        if c["crashed"]:
+            ctx.violation("libmcount crashed (or the tracee would die in ASSERT(!mtdp->dead)) when a thread ran traced code in a "
+                          "key destructor after libmcount's own thread teardown", life_json(c), True)
+    if not good:
+        return
+    defs = "Local Open Scope nat_scope.\nDefinition lcases : list life_case := [\n%s\n].\n" % ";\n".join(coq_life_case(c) for c in good)
+    res = coq.run_cases(ctx, name, PRE, defs, [("l_mismatch", "bad_indices life_agrees lcases 0"),
+                                               ("l_violations", "bad_indices life_ok lcases 0")])
+    if res is None:
+        return
+    res = {k: coq.parse_nat_list(v) for k, v in res.items()}
+    ctx.log("thread life-cycle cases evaluated in Coq:", {k: v for k, v in res.items() if v} or "all agree, all accepted")
+    for i in res["l_violations"][:3]:
+        ctx.violation("C01 violated: after libmcount tore a thread down (mtd_dtor at thread exit) a hook fired again in that thread - "
+                      "a return address was hijacked / the shadow stack is not empty / a return did not go to its real caller",
+                      life_json(good[i]), True)
+    if res["l_mismatch"] and not res["l_violations"]:
+        ctx.violation("thread life-cycle model (Life.run_lop: key value, recursion marker, dead) and libmcount disagree on %d cases"
+                      % len(res["l_mismatch"]), life_json(good[res["l_mismatch"][0]]), False)
+
+
 # ================================================================ xmm cases
 def gen_xmm(rng, kind):
     """16 vector registers of 8 words (word i = bits 64i..64i+63) + a clobber"""
@@ -702,7 +794,8 @@ def compile_multi(workdir, name, entry):
 def compile_prog(workdir, name, src, mode, opt, cflags=()):
     if name in MULTI:
         return compile_multi(workdir, name, MULTI[name])
-    c = os.path.join(workdir, name + ".c")
+    cxx = "\n// c++\n" in src
+    c = os.path.join(workdir, name + (".cpp" if cxx else ".c"))
     if not os.path.exists(c):
         open(c, "w").write(src)
     exe = os.path.join(workdir, "%s.%s%s" % (name, mode, opt))
@@ -712,7 +805,7 @@ def compile_prog(workdir, name, src, mode, opt, cflags=()):
         cflags = ["-mavx512f"]
     elif "__m256d" in src and not cflags:
         cflags = ["-mavx2"]
-    cmd = ["gcc", opt, "-g", "-w"] + list(cflags) + G.MODES[mode][0] + ["-o", exe + ".tmp", c, "-lm", "-pthread"]
+    cmd = ["g++" if cxx else "gcc", opt, "-g", "-w"] + list(cflags) + G.MODES[mode][0] + ["-o", exe + ".tmp", c, "-lm", "-pthread"]
     rc, out, err = sh(cmd, timeout=120)
     if rc != 0:
         raise RuntimeError("generated program does not compile (%s %s): %s" % (mode, opt, err[-1500:]))
@@ -962,6 +1055,9 @@ def common_meta(ctx):
         "coq/theories/C01/Shadow.v: hand-written model of __mcount_entry/__mcount_exit/__plthook_entry/exit/"
         "__cygprof_entry/exit, mcount_auto_restore/rehook, mcount_rstack_restore/rehook (PLT frames are driven "
         "in-process on a fake module: libmcount/plthook.c is #included into the harness)",
+        "coq/theories/C01/Life.v: hand-written model of the per-thread life cycle (mcount_prepare, the hooks' get_thread_data / "
+        "guard preamble, mtd_dtor as glibc calls it at thread exit: key value, recursion marker, dead), tied in-process on new "
+        "threads that really exit, with the harness' own key destructor running call trees after libmcount's",
         "coq/theories/C01/ArchCtx.v: semantics of movsd/movq/movdqu/movups/vmovdqu/vmovdqu64 on 512-bit registers for "
         "the generated save/restore lists (legacy-SSE loads keep bits 128+, VEX/EVEX loads clear bits above the vector length)",
         "harness/c/c01_harness.c, props/c01.py, props/c01_progs.py (drivers, generators, comparison)",
@@ -984,6 +1080,8 @@ def common_meta(ctx):
         "return addresses of the program are never the address of mcount_return/dynamic_return/plthook_return",
         "no exception/longjmp/signal unwinding (C11), no fork/exec inside the hooks, mtdp->in_exception = false",
         "the shadow state is per thread (mtd is thread-local) and thread stacks are disjoint",
+        "glibc runs key destructors in key order and libmcount's key is older than every key of the program (created in "
+        "libmcount's constructor); the harness checks the order of its own key",
         "-pg code addresses its return slot as 8(%rbp) of the real frame (false after a DRAP stack realignment: known "
         "finding pg-drap-realigned-stack, dedicated witness)",
         "dynamic linker lazy binding, thread schedules, compiler code generation: monitored end-to-end only",
@@ -1092,6 +1190,16 @@ def run(ctx):
         ctx.case(key=("sched", tuple(coq_tree(t) for t in trees), tuple(t for t, _ in c["sched"])),
                  tags=["threads=%d" % nth, "schedule:switches=%s" % ("many" if sum(1 for a, b in zip(c["sched"], c["sched"][1:]) if a[0] != b[0]) > 10 else "few")],
                  size=len(c["sched"]))
+    lcases = []
+    for i in range(ctx.n(14, 150)):
+        pre, cut, posts = gen_life_case(ctx.rng)
+        c = run_life_case(h, pre, cut, posts)
+        lcases.append(c)
+        traced = any(o[0] == "E" and o[1] != "N" for o in c.get("pre_ops", []))
+        ctx.case(key=("life", coq_tree(pre), cut, tuple(coq_tree(t) for t in posts)),
+                 tags=["life:rounds=%d" % len(posts), "life:open-frames-at-exit" if cut < len(full(pre)[0]) else "life:returned",
+                       "life:alive-then-torn-down" if traced else "life:first-met-in-destructor"])
+    evaluate_life(ctx, lcases)
     ctx.log("ran %d call trees, %d xmm-pair, %d hook-call xmm, %d finish, %d estimate-return and %d thread-schedule cases on libmcount"
             % (len(scases), len(xcases), len(hcases), len(tcases), len(ecases), len(dcases)))
     res = evaluate(ctx, [c for c in scases if not c["crashed"]], xcases, hcases=hcases, tcases=tcases, ecases=ecases, dcases=dcases,
@@ -1247,6 +1355,11 @@ def replay(ctx, obj):
         res = evaluate(ctx, [], [], name="replay", hcases=hcs)
         ctx.log("replayed hook-call xmm cases:", res)
         verdict(ctx, [], [], res, hcs)
+    elif kind == "life":
+        h = Harness(ctx, objdir)
+        c = run_life_case(h, tree_of_json(obj["pre"]), obj["cut"], [tree_of_json(t) for t in obj["posts"]])
+        ctx.case(key="replay", sample={"observed": c.get("raw", [])[:50]})
+        evaluate_life(ctx, [c], name="replay_life")
     elif kind == "e2e":
         work = os.path.join(ctx.scratch, "e2e")
         os.makedirs(work, exist_ok=True)
